@@ -912,18 +912,8 @@ impl<T: Serialize + for<'de> Deserialize<'de> + Clone + PartialEq + Send + Sync 
 
         for snapshot_path in snapshots.iter().rev() {
             match self.load_snapshot(snapshot_path).await {
-                Ok((header, loaded_state)) => {
+                Ok((header, loaded_state, checksum)) => {
                     // Verify checksum
-                    let data = postcard::to_stdvec(&loaded_state).map_err(|e| {
-                        P2PError::Storage(StorageError::Database(
-                            format!("Failed to serialize for checksum: {e}").into(),
-                        ))
-                    })?;
-
-                    let mut hasher = Sha256::new();
-                    hasher.update(&data);
-                    let checksum: [u8; 32] = hasher.finalize().into();
-
                     if checksum != header.checksum {
                         stats.corruption_events.push(CorruptionEvent {
                             file_path: snapshot_path.clone(),
@@ -1242,7 +1232,10 @@ impl<T: Serialize + for<'de> Deserialize<'de> + Clone + PartialEq + Send + Sync 
     }
 
     /// Load snapshot from file
-    async fn load_snapshot(&self, path: &Path) -> Result<(SnapshotHeader, HashMap<String, T>)> {
+    async fn load_snapshot(
+        &self,
+        path: &Path,
+    ) -> Result<(SnapshotHeader, HashMap<String, T>, [u8; 32])> {
         let mut file = File::open(path).map_err(|e| {
             P2PError::Storage(StorageError::Database(
                 format!("Failed to open snapshot: {e}").into(),
@@ -1281,6 +1274,12 @@ impl<T: Serialize + for<'de> Deserialize<'de> + Clone + PartialEq + Send + Sync 
             ))
         })?;
 
+        // Checksum of the payload exactly as stored (re-serialising the map would not
+        // reproduce the stored byte order)
+        let mut hasher = Sha256::new();
+        hasher.update(&snapshot_data);
+        let payload_checksum: [u8; 32] = hasher.finalize().into();
+
         // Deserialize state
         let state: HashMap<String, T> = postcard::from_bytes(&snapshot_data).map_err(|e| {
             P2PError::Storage(StorageError::Database(
@@ -1288,7 +1287,7 @@ impl<T: Serialize + for<'de> Deserialize<'de> + Clone + PartialEq + Send + Sync 
             ))
         })?;
 
-        Ok((header, state))
+        Ok((header, state, payload_checksum))
     }
 
     /// Clean up old WAL files
@@ -1495,19 +1494,9 @@ impl<T: Serialize + for<'de> Deserialize<'de> + Clone + PartialEq + Send + Sync 
 
     /// Verify snapshot integrity
     async fn verify_snapshot_integrity(&self, path: &Path) -> Result<()> {
-        let (header, state) = self.load_snapshot(path).await?;
+        let (header, _state, checksum) = self.load_snapshot(path).await?;
 
         // Verify checksum
-        let data = postcard::to_stdvec(&state).map_err(|e| {
-            P2PError::Storage(StorageError::Database(
-                format!("Failed to serialize for checksum: {e}").into(),
-            ))
-        })?;
-
-        let mut hasher = Sha256::new();
-        hasher.update(&data);
-        let checksum: [u8; 32] = hasher.finalize().into();
-
         if checksum != header.checksum {
             return Err(P2PError::Storage(
                 crate::error::StorageError::CorruptionDetected(
